@@ -82,17 +82,41 @@ class CylindricalKernel(Kernel):
             self.register_prior(
                 "angular_weights_prior",
                 angular_weights_prior,
-                lambda m: m.angular_weights,
-                lambda m, v: m._set_angular_weights(v),
+                self._angular_weights_param,
+                self._angular_weights_closure,
             )
         if alpha_prior is not None:
             if not isinstance(alpha_prior, Prior):
                 raise TypeError("Expected gpytorch.priors.Prior but got " + type(alpha_prior).__name__)
-            self.register_prior("alpha_prior", alpha_prior, lambda m: m.alpha, lambda m, v: m._set_alpha(v))
+            self.register_prior("alpha_prior", alpha_prior, self._alpha_param, self._alpha_closure)
         if beta_prior is not None:
             if not isinstance(beta_prior, Prior):
                 raise TypeError("Expected gpytorch.priors.Prior but got " + type(beta_prior).__name__)
-            self.register_prior("beta_prior", beta_prior, lambda m: m.beta, lambda m, v: m._set_beta(v))
+            self.register_prior("beta_prior", beta_prior, self._beta_param, self._beta_closure)
+
+    def _angular_weights_param(self, m):
+        # Used by the angular_weights_prior (a method rather than a lambda: the module stays picklable)
+        return m.angular_weights
+
+    def _angular_weights_closure(self, m, v):
+        # Used by the angular_weights_prior
+        return m._set_angular_weights(v)
+
+    def _alpha_param(self, m):
+        # Used by the alpha_prior (a method rather than a lambda: the module stays picklable)
+        return m.alpha
+
+    def _alpha_closure(self, m, v):
+        # Used by the alpha_prior
+        return m._set_alpha(v)
+
+    def _beta_param(self, m):
+        # Used by the beta_prior (a method rather than a lambda: the module stays picklable)
+        return m.beta
+
+    def _beta_closure(self, m, v):
+        # Used by the beta_prior
+        return m._set_beta(v)
 
     @property
     def angular_weights(self) -> Tensor:
